@@ -27,6 +27,8 @@ type FieldSpec struct {
 	Ignore bool     `json:"ignore,omitempty"`
 	Path   []string `json:"path,omitempty"` // source path; ["."] = whole source
 	Func   string   `json:"func,omitempty"` // callable key of map|FUNC
+	// NoSource: map TARGET | FUNC without a source (FUNC takes contexts only)
+	NoSource bool `json:"noSource,omitempty"`
 }
 
 // MethodSpec describes one declared conversion method.
@@ -42,6 +44,8 @@ type MethodSpec struct {
 	NoValue bool `json:"noValue,omitempty"`
 	// ExpectErr: method has an error result.
 	HasErr bool `json:"hasErr,omitempty"`
+	// WrapMode: none | wrapErrors | using (how errors are wrapped in this method and its sub-methods)
+	WrapMode string `json:"wrapMode,omitempty"`
 }
 
 // FuncSpec describes a custom function known to the converter.
@@ -229,7 +233,7 @@ func (r *Ref) conv(src reflect.Value, T reflect.Type, st state, path []string, t
 		}
 		s := reflect.MakeSlice(T, src.Len(), src.Len())
 		for i := 0; i < src.Len(); i++ {
-			e, err := r.conv(src.Index(i), T.Elem(), stNext, append(path[:len(path):len(path)], fmt.Sprintf("[%d]", i)), false)
+			e, err := r.conv(src.Index(i), T.Elem(), stNext, append(path[:len(path):len(path)], fmt.Sprintf("index:%d", i)), false)
 			if err != nil {
 				return out, err
 			}
@@ -245,7 +249,7 @@ func (r *Ref) conv(src reflect.Value, T reflect.Type, st state, path []string, t
 		m := reflect.MakeMapWithSize(T, src.Len())
 		it := src.MapRange()
 		for it.Next() {
-			kp := append(path[:len(path):len(path)], "key:"+Format(it.Key()))
+			kp := append(path[:len(path):len(path)], "key:"+fmt.Sprintf("%#v", forceIface(it.Key()).Interface()))
 			k, err := r.conv(it.Key(), T.Key(), stNext, kp, false)
 			if err != nil {
 				return out, err
@@ -281,10 +285,12 @@ func (r *Ref) structConv(src reflect.Value, T reflect.Type, st, stNext state, pa
 		if tf.PkgPath != "" && st.flags.IgnoreUnexported {
 			continue
 		}
-		fpath := append(path[:len(path):len(path)], tf.Name)
+		fpath := append(path[:len(path):len(path)], "field:"+tf.Name)
 		var sv reflect.Value
 		var have bool
 		switch {
+		case fs.NoSource && fs.Func != "":
+			sv, have = reflect.Value{}, true
 		case len(fs.Path) == 1 && fs.Path[0] == ".":
 			sv, have = src, true
 		case len(fs.Path) > 0:
@@ -481,7 +487,7 @@ func (r *Ref) callFunc(spec *FuncSpec, fn reflect.Value, src reflect.Value, T re
 			args[i] = v
 		default:
 			if !src.IsValid() {
-				return reflect.Value{}, &Unsupported{"no source for func"}
+				return reflect.Value{}, &Unsupported{"function wants a source but the setting has none"}
 			}
 			if !src.Type().AssignableTo(ft.In(i)) {
 				return reflect.Value{}, &Unsupported{"source not assignable to func param"}
@@ -506,8 +512,87 @@ func (r *Ref) callFunc(spec *FuncSpec, fn reflect.Value, src reflect.Value, T re
 	return res, nil
 }
 
+// basicTypes maps a basic kind to its predeclared reflect.Type (the "underlying type" of a named basic).
+var basicTypes = map[reflect.Kind]reflect.Type{
+	reflect.Bool: reflect.TypeOf(false), reflect.Int: reflect.TypeOf(int(0)), reflect.Int8: reflect.TypeOf(int8(0)), reflect.Int16: reflect.TypeOf(int16(0)),
+	reflect.Int32: reflect.TypeOf(int32(0)), reflect.Int64: reflect.TypeOf(int64(0)), reflect.Uint: reflect.TypeOf(uint(0)), reflect.Uint8: reflect.TypeOf(uint8(0)),
+	reflect.Uint16: reflect.TypeOf(uint16(0)), reflect.Uint32: reflect.TypeOf(uint32(0)), reflect.Uint64: reflect.TypeOf(uint64(0)),
+	reflect.Float32: reflect.TypeOf(float32(0)), reflect.Float64: reflect.TypeOf(float64(0)), reflect.String: reflect.TypeOf(""),
+}
+
+func underlyingOf(t reflect.Type) (reflect.Type, bool) {
+	if t.PkgPath() == "" || t.Name() == "" {
+		return nil, false
+	}
+	if t.Kind() == reflect.Struct {
+		// the unnamed struct type with the same (exported) fields
+		var fs []reflect.StructField
+		for i := 0; i < t.NumField(); i++ {
+			f := t.Field(i)
+			if f.PkgPath != "" {
+				return nil, false
+			}
+			fs = append(fs, reflect.StructField{Name: f.Name, Type: f.Type, Tag: f.Tag})
+		}
+		return reflect.StructOf(fs), true
+	}
+	u, ok := basicTypes[t.Kind()]
+	return u, ok
+}
+
+// underlying implements useUnderlyingTypeMethods for named basic types: named->underlying, both, underlying->named.
 func (r *Ref) underlying(src reflect.Value, T reflect.Type, path []string) (reflect.Value, bool, error) {
-	// not modelled in the structural reference; dedicated checks provide their own oracle
+	S := src.Type()
+	has := func(a, b reflect.Type) (*boundFunc, *MethodSpec) {
+		if bf, ok := r.Extends[[2]reflect.Type{a, b}]; ok {
+			return bf, nil
+		}
+		if ms, ok := r.Methods[[2]reflect.Type{a, b}]; ok {
+			return nil, ms
+		}
+		return nil, nil
+	}
+	su, sok := underlyingOf(S)
+	tu, tok := underlyingOf(T)
+	try := func(a, b reflect.Type, convSrc, convTgt bool) (reflect.Value, bool, error) {
+		bf, ms := has(a, b)
+		if bf == nil && ms == nil {
+			return reflect.Value{}, false, nil
+		}
+		in := src
+		if convSrc {
+			in = forceIface(src).Convert(a)
+		}
+		var out reflect.Value
+		var err error
+		if bf != nil {
+			out, err = r.callFunc(bf.spec, bf.fn, in, b, path)
+		} else {
+			out, err = r.Method(ms, in, b)
+		}
+		if err != nil {
+			return out, true, err
+		}
+		if convTgt {
+			out = forceIface(out).Convert(T)
+		}
+		return out, true, nil
+	}
+	if sok {
+		if v, ok, err := try(su, T, true, false); ok {
+			return v, ok, err
+		}
+		if tok {
+			if v, ok, err := try(su, tu, true, true); ok {
+				return v, ok, err
+			}
+		}
+	}
+	if tok {
+		if v, ok, err := try(S, tu, false, true); ok {
+			return v, ok, err
+		}
+	}
 	return reflect.Value{}, false, nil
 }
 
